@@ -32,7 +32,7 @@ well conditioned when these bounds add up to ≤ `ptol` (1e-9 / 1e-4).  Ill-cond
 `margin=0` and are skipped (counted) by the comparison. -/
 section generic
 variable {α : Type} [Add α] [Sub α] [Mul α] [Div α] [Neg α] [LT α] [DecidableLT α]
-  [OfNat α 0] [OfNat α 1] [NatCast α] [Transc α]
+  [LE α] [DecidableLE α] [OfNat α 0] [OfNat α 1] [NatCast α] [Transc α]
 
 /-- the scalar-specific constants: conversions, machine epsilon, conditioning threshold, upper end of the
 EmptyCluster grey zone -/
@@ -42,6 +42,13 @@ structure Sc (α : Type) where
   eps : α
   ptol : α
   greyHi : α
+  /-- presentation: the scale of a mean is at least `max|x| / rr` (see `scaleOf`) -/
+  rr : α
+  /-- `fitfull`: a float decision closer than `noiseK · ε · max(1, |lb|)` to its threshold is a tie -/
+  noiseK : α
+  /-- `emfull` / `fitfull`: a Cholesky pivot below this fraction of its diagonal entry makes the acceptance of
+  the factorisation (computed from covariances that differ by rounding) too close to call -/
+  pivTol : α
 
 variable (sc : Sc α)
 
@@ -66,6 +73,39 @@ def mahaAbs (d : Nat) (x mu : List α) (pc : List (List α)) : α :=
     y * y
 
 def maxF (l : List α) : α := l.foldl (fun m g => if m < g then g else m) 0
+
+/-- presentation scales of an M-step (driver only): `lo` the column minima, `range` the largest column
+range, `mx = max |x_ij|`.  Means are printed as `(μ − lo) / s1`, covariance diagonals as `Σ_aa / s2`, with
+`s1 = max(range, mx / rr)`, `s2 = max(range², mx · range / rr)`: the rounding error of the two-pass
+formulas is `~ n ε mx` for a mean and `~ ε mx range` for a covariance entry, so data far from the origin
+(`mx ≫ range`) is compared as tightly as its conditioning allows and no tighter. -/
+structure Scale (α : Type) where
+  lo : List α
+  s1 : α
+  s2 : α
+
+def scaleOf (d : Nat) (x : List (List α)) : Scale α :=
+  let cols := (List.range d).map fun c => x.map fun r => r.getD c 0
+  let lo := cols.map fun col => match col with
+    | [] => (0 : α)
+    | a :: t => t.foldl (fun m v => if v < m then v else m) a
+  let hi := cols.map fun col => match col with
+    | [] => (0 : α)
+    | a :: t => t.foldl (fun m v => if m < v then v else m) a
+  let range := maxF (List.zipWith (· - ·) hi lo)
+  let mx := maxF (x.flatten.map absS)
+  let a := mx / sc.rr
+  let s1 := if range < a then a else range
+  let b := mx * range / sc.rr
+  let r2 := range * range
+  let s2 := if r2 < b then b else r2
+  ⟨lo, if (0 : α) < s1 then s1 else 1, if (0 : α) < s2 then s2 else 1⟩
+
+/-- weights, means, covariances in the scale-free presentation -/
+def showParams (d : Nat) (x : List (List α)) (w : List α) (mu : List (List α)) (covs : List (List (List α))) : String :=
+  let scl := scaleOf sc d x
+  let mus := mu.map fun row => (List.range d).map fun c => (row.getD c 0 - scl.lo.getD c 0) / scl.s1
+  s!"w={showList (shA sc) w} mu={showList2 (shA sc) mus} covdiag={showList2 (shA sc) (covs.map (diagOf d scl.s2))} covcorr={showList3 (shA sc) (covs.map (corrOf d))}"
 
 /-- bound on the difference between two floating-point evaluations of `weightedLogProb` -/
 def deltaOf (d : Nat) (w : List α) (mu : List (List α)) (pcs : List (List (List α)))
@@ -133,16 +173,14 @@ def handleMstep (withNk : Bool) (toks : List String) : Option String := do
   if n = 0 ∨ r.length ≠ n ∨ x.any (fun q => q.length ≠ d) ∨ r.any (fun q => q.length ≠ k) then none else
   let x := x.map (·.map sc.ofF)
   let r := r.map (·.map sc.ofF)
-  let s0 := maxF (x.flatten.map absS)
-  let s : α := if (0 : α) < s0 then s0 else 1
-  -- a column mass in [eps, greyHi): the statement does not say whether that component is "emptied"
-  let grey := (nkOf n k r).any fun v => !(decide (v < sc.eps)) && decide (v < sc.greyHi)
+  -- a column mass in (0, greyHi): the statement does not say whether that component is "emptied"
+  let grey := (nkOf n k r).any fun v => decide ((0 : α) < v) && decide (v < sc.greyHi)
   let mg := if withNk then s!" margin={sh (if grey then 0.0 else 1.0)}" else ""
   match estimateParams (thr sc) (sc.ofF reg) n d k x r with
   | .error e => some ("err " ++ e ++ mg)
   | .ok p =>
     let nk := if withNk then s!"nk={showList (shA sc) p.nk} " else ""
-    some s!"ok {nk}w={showList (shA sc) p.weights} mu={showList2 (shA sc) (p.means.map (·.map (· / s)))} covdiag={showList2 (shA sc) (p.covs.map (diagOf d (s * s)))} covcorr={showList3 (shA sc) (p.covs.map (corrOf d))}{mg}"
+    some s!"ok {nk}{showParams sc d x p.weights p.means p.covs}{mg}"
 
 /-- one whole EM iteration (`emStep`): from the parameters of the state before the accepted step and the
 records to the parameters `fit` returned; compared when every E-step row is well conditioned -/
@@ -153,13 +191,13 @@ def handleEmstep (toks : List String) : Option String := do
   if x.length = 0 then none else
   let well := x.all fun xi =>
     wellP sc (deltaOf sc m.d m.w m.mu m.pc xi) (logRespStable (weightedLogProb (ln2pi sc) m.d m.w m.mu m.pc xi)).2
-  let s0 := maxF (x.flatten.map absS)
-  let s : α := if (0 : α) < s0 then s0 else 1
   let d := m.d
+  -- the lower bound `e_step` reports for the state before: `log_prob_norm.mean()`
+  let lb := (eStepFull (ln2pi sc) d ⟨m.w, m.mu, [], m.pc⟩ x).1
   match emStep (thr sc) (sc.ofF reg) (ln2pi sc) d m.w m.mu m.pc x with
   | .error e => some s!"err {e} margin={sh (flag well)}"
   | .ok p =>
-    some s!"ok w={showList (shA sc) p.weights} mu={showList2 (shA sc) (p.means.map (·.map (· / s)))} covdiag={showList2 (shA sc) (p.covs.map (diagOf d (s * s)))} covcorr={showList3 (shA sc) (p.covs.map (corrOf d))} margin={sh (flag well)}"
+    some s!"ok lb={shA sc lb} {showParams sc d x p.weights p.means p.covs} margin={sh (flag well)}"
 
 def handlePrec (toks : List String) : Option String := do
   let pc ← argF64s3 toks "pc"
@@ -182,10 +220,100 @@ def handlePredict (toks : List String) : Option String := do
   let m ← parseMix sc toks
   let x ← parseObs sc toks m.d
   let ps := x.map (predictProba (ln2pi sc) m.d m.w m.mu m.pc)
-  let labs := ps.map argmaxFirst
+  -- the labels through the model function the theorem `predict_is_argmax` is about
+  let labs := x.map (predict (ln2pi sc) m.d m.w m.mu m.pc)
   let well := x.all fun xi =>
     wellP sc (deltaOf sc m.d m.w m.mu m.pc xi) (logRespStable (weightedLogProb (ln2pi sc) m.d m.w m.mu m.pc xi)).2
   some s!"ok lab={showList toString labs} margin={sh (if well then minF (ps.map fun p => sc.toF (margin p)) else 0.0)}"
+
+/-- every Cholesky pivot of every covariance is at least `pivTol` of its diagonal entry -/
+def pivotsOk (d : Nat) (covs : List (List (List α))) : Bool :=
+  covs.all fun A => (List.range d).all fun j =>
+    match cholesky j A with
+    | .ok L => !(gt sc.pivTol ((cholRowD A L j).2 / at2 A j j))
+    | .error _ => false
+
+/-- `compute_precisions_cholesky_full` through the model of the two `linfa-linalg` routines; the line is compared when
+every pivot is at least `ptol` (1e-9 / 1e-4) of its diagonal entry (a pivot within rounding of zero is too close to call) -/
+def handlePchol (toks : List String) : Option String := do
+  let cov ← argF64s3 toks "cov"
+  let d := (cov.headD []).length
+  if cov.any (fun m => m.length ≠ d ∨ m.any (fun r => r.length ≠ d)) then none else
+  let covs := cov.map (·.map (·.map sc.ofF))
+  let piv := covs.map fun A => (List.range d).map fun j =>
+    match cholesky j A with
+    | .ok L => sc.toF (absS ((cholRowD A L j).2 / at2 A j j))
+    | .error _ => (1.0 : Float)
+  let mg := flag (minF piv.flatten >= sc.toF sc.ptol)
+  match precCholAll d covs with
+  | .error e => some s!"err {e} margin={sh mg}"
+  | .ok pcs => some s!"ok pc={showList3 (shA sc) pcs} margin={sh mg}"
+
+/-- the methods `e_step` then `m_step` on a whole state (`emStepFull`): lower bound, new parameters, or the
+error (`precisions_chol` itself is compared by `pchol`; here its failure decides `LinalgError`, compared when
+no pivot is too close to zero) -/
+def handleEmfull (toks : List String) : Option String := do
+  let reg ← argF64 toks "reg"
+  let m ← parseMix sc toks
+  let x ← parseObs sc toks m.d
+  if x.length = 0 then none else
+  let d := m.d
+  let well := x.all fun xi =>
+    wellP sc (deltaOf sc d m.w m.mu m.pc xi) (logRespStable (weightedLogProb (ln2pi sc) d m.w m.mu m.pc xi)).2
+  match emStepFull (thr sc) (sc.ofF reg) (ln2pi sc) d x ⟨m.w, m.mu, [], m.pc⟩ with
+  | .error e => some s!"err {e} margin={sh (flag (well && e != "LinalgError"))}"
+  | .ok (lb, s') =>
+    some s!"ok lb={shA sc lb} {showParams sc d x s'.weights s'.means s'.covs} margin={sh (flag (well && pivotsOk sc d s'.covs))}"
+
+/-- smallest fuel (4, 8, 16, … up to the budget `n_runs · max_n_iterations`) for which `f` does not answer
+`trace-exhausted` -/
+def searchFuel {β : Type} (f : Nat → Except String β) (budget : Nat) : Nat → Nat → Nat × Except String β
+  | 0, fuel => (fuel, f fuel)
+  | n + 1, fuel =>
+    if budget ≤ fuel then (budget, f budget) else
+    match f fuel with
+    | .error e => if e == "trace-exhausted" then searchFuel f budget n (2 * fuel) else (fuel, .error e)
+    | r => (fuel, r)
+
+/-- the whole of `fit` after `new` (`fitFull` on `emStepFull`): from the initial state and the records to
+the state `fit` returns.  The line is compared when no float decision of the run is too close to call:
+every convergence test `| |Δlb| − tol |` and (with several runs) every pair of lower bounds is further
+apart than `noiseK · ε · max(1, |lb|)`, and every E-step row of the chain is well conditioned. -/
+def handleFitfull (toks : List String) : Option String := do
+  let tol ← argF64 toks "tol"
+  let iters ← argNat toks "iters"
+  let runs ← argNat toks "runs"
+  let reg ← argF64 toks "reg"
+  let m ← parseMix sc toks
+  let x ← parseObs sc toks m.d
+  if x.length = 0 then none else
+  let d := m.d
+  let s0 : State α := ⟨m.w, m.mu, [], m.pc⟩
+  let step := emStepFull (thr sc) (sc.ofF reg) (ln2pi sc) d x
+  let tolA := sc.ofF tol
+  let (fuel, res) := searchFuel (fun fuel => fitFull step tolA iters runs fuel s0) (runs * iters) 64 4
+  -- conditioning of the run (driver only)
+  let ch := chainFrom step fuel s0
+  let lbs : List α := ch.1.filterMap fun o => match o with | .ok v => some v | .error _ => none
+  let sts := ch.2.take lbs.length
+  -- per state: the largest rounding bound of a row's weighted log probabilities (so of its `log_prob_norm`)
+  let dl : List α := sts.map fun s => maxF (x.map fun xi => deltaOf sc d s.weights s.means s.pcs xi)
+  let noise (i : Nat) : α :=
+    let v := lbs.getD i 0
+    sc.noiseK * sc.eps * (if gt (absS v) 1 then absS v else 1) + sc.ofF 2.0 * dl.getD i 0
+  let idx := List.range lbs.length
+  let convOk := idx.all fun i => i + 1 ≥ lbs.length ||
+    gt (absS (absS (lbs.getD (i + 1) 0 - lbs.getD i 0) - tolA)) (noise i + noise (i + 1))
+  let pairsOk := runs ≤ 1 || idx.all fun i => idx.all fun j =>
+    decide (j ≤ i) || gt (absS (lbs.getD i 0 - lbs.getD j 0)) (noise i + noise j)
+  let rowsOk := sts.all fun s => x.all fun xi =>
+    wellP sc (deltaOf sc d s.weights s.means s.pcs xi) (logRespStable (weightedLogProb (ln2pi sc) d s.weights s.means s.pcs xi)).2
+  let pivOk := (ch.2.drop 1).all fun s => pivotsOk sc d s.covs
+  let errOk := match res with | .error e => e != "LinalgError" | .ok _ => true
+  let mg := sh (flag (convOk && pairsOk && rowsOk && pivOk && errOk))
+  match res with
+  | .error e => some s!"err {e} margin={mg}"
+  | .ok (i, s) => some s!"ok idx={i} {showParams sc d x s.weights s.means s.covs} margin={mg}"
 
 /-- the loop of `fit` on the recorded chain: `lb` the lower bounds of the successful steps, `err` the
 error of the step after them (`-` = none) -/
@@ -202,9 +330,10 @@ def handleFitwalk (toks : List String) : Option String := do
 
 end generic
 
-def sc64 : Sc Float := ⟨id, id, Float.ofBits 0x3CB0000000000000, 1e-9, 1e-10⟩
+def sc64 : Sc Float := ⟨id, id, Float.ofBits 0x3CB0000000000000, 1e-9, 1e-10, 64.0, 65536.0, 1e-6⟩
 def sc32 : Sc Float32 :=
-  ⟨Float.toFloat32, Float32.toFloat, Float32.ofBits 0x34000000, (1e-4 : Float).toFloat32, (1e-4 : Float).toFloat32⟩
+  ⟨Float.toFloat32, Float32.toFloat, Float32.ofBits 0x34000000, (1e-4 : Float).toFloat32, (1e-4 : Float).toFloat32,
+   (1.0 : Float).toFloat32, (256.0 : Float).toFloat32, (1e-3 : Float).toFloat32⟩
 
 def handle (toks : List String) : String :=
   let r := match toks with
@@ -223,6 +352,12 @@ def handle (toks : List String) : String :=
     | "proba32" :: rest => handleProba sc32 rest
     | "predict32" :: rest => handlePredict sc32 rest
     | "fitwalk32" :: rest => handleFitwalk sc32 rest
+    | "pchol" :: rest => handlePchol sc64 rest
+    | "pchol32" :: rest => handlePchol sc32 rest
+    | "emfull" :: rest => handleEmfull sc64 rest
+    | "emfull32" :: rest => handleEmfull sc32 rest
+    | "fitfull" :: rest => handleFitfull sc64 rest
+    | "fitfull32" :: rest => handleFitfull sc32 rest
     | _ => none
   r.getD "bad-op"
 
